@@ -144,8 +144,13 @@ def rand_path(rng, W, H, curves=0.3):
 
 
 # ---------------- sources ----------------
+BIG_IMAGES = [(17, 3), (3, 33), (64, 2), (2, 70), (300, 1), (1, 260), (16, 16), (9, 9)]
+
+
 def image_tokens(rng, maxdim=5):
     w, h = rng.randrange(1, maxdim + 1), rng.randrange(1, maxdim + 1)
+    if rng.random() < 0.06:
+        w, h = rng.choice(BIG_IMAGES)      # past 8 / 16 / 64 / 256 texels in one direction
     return "%d %d %s" % (w, h, " ".join(gen.hexpx(gen.premul_pixel(rng)) for _ in range(w * h)))
 
 
@@ -177,6 +182,10 @@ def rand_source(rng, W, H, kinds=None):
             # the image's own transform is the identity or an integer translation: whether the shader may take the
             # integer-offset route must be decided on the COMBINED transform (current transform included)
             t = rng.choice([IDENT, (1.0, 0.0, 0.0, 1.0, float(rng.randrange(-3, 4)), float(rng.randrange(-3, 4)))])
+        elif rng.random() < 0.06:
+            # the image sampled hundreds or thousands of texels away from its origin (Pad: the edge texel, Repeat: many periods)
+            far = lambda: rng.choice([-1, 1]) * rng.choice([100.0, 257.0, 1000.0, 3000.0]) + rng.choice([0.0, 0.5, 0.25])
+            t = (t[0], t[1], t[2], t[3], far(), far()) if rng.random() < 0.5 else (1.0, 0.0, 0.0, 1.0, far(), far())
         return "image %s %s %s %s" % (image_tokens(rng), rng.choice(["pad", "repeat"]), rng.choice(["bilinear", "nearest"]),
                                       xf_tokens(t))
     if k == "linear":
